@@ -448,6 +448,15 @@ func (w *World) registerStore(s iface.Store) {
 	}
 	w.slotBase[storeKey(s)] = base
 	w.mu.Unlock()
+	// a store listens on the topic named by its own address (what keeps the databases of one instance,
+	// and the databases of one name, apart on pubsub)
+	for _, pr := range w.peers {
+		if pr.identity != nil && s.Identity() != nil && pr.identity.ID == s.Identity().ID {
+			if w.net.topicOf(pr.idx, s.Address().String()) == nil {
+				w.printf("sub %d missing\n", pr.idx)
+			}
+		}
+	}
 }
 
 type statser interface{ VerifStats() replicator.VerifStats }
